@@ -601,6 +601,27 @@ pub fn add_unused(rng: &mut Rng, m: &mut Model) {
             },
         );
     }
+    // a space that owns no wall and is referred to only as the neighbour of somebody else's wall
+    // (an attic above interior slabs): reachable, must be kept
+    if rng.chance(1, 2) {
+        let id = rng.uuid();
+        let pos = rng.below(m.spaces.len() + 1);
+        m.spaces.insert(
+            pos,
+            Space {
+                id,
+                name: "solo_adyacente".into(),
+                height: 2.5,
+                kind: SpaceType::UNINHABITED,
+                ..Default::default()
+            },
+        );
+        let nw = m.walls.len();
+        if nw > 0 {
+            let k = rng.below(nw);
+            m.walls[k].next_to = Some(id);
+        }
+    }
     for i in 0..rng.range(0, 2) {
         let pos = rng.below(m.cons.materials.len() + 1);
         m.cons.materials.insert(
